@@ -403,7 +403,10 @@ def run_lockstep(case, workdir, stop_on_violation=False, spec_hook=None):
                 tr.steps.append((line, [b.decode("latin-1") for b in e.lines], None))
                 break
             except dm.DaemonHang:
+                # alive but silent: the monitors judge the silence (a due verdict or query is then missing)
                 tr.hang = True
+                tr.steps.append((line, [], None))
+                spec.feed_output(i, [])
                 break
             out = [b.decode("latin-1") for b in out]
             tr.steps.append((line, out, in_use))
